@@ -399,7 +399,7 @@ Inductive ostr :=
   | K5 (o : ostr) | K6 (o : ostr) | K7 (o : ostr) | K8 (o : ostr) | K9 (o : ostr)
   | X0 (o : ostr) | X1 (o : ostr) | X2 (o : ostr) | X3 (o : ostr) | X4 (o : ostr)
   | X5 (o : ostr) | X6 (o : ostr) | X7 (o : ostr) | X8 (o : ostr) | X9 (o : ostr)
-  | Mi (o : ostr).
+  | Mi (o : ostr) | Sl (o : ostr) | St (o : ostr).     (* '-', '/', '*' *)
 Definition kdig (d : N) (o : ostr) : ostr :=
   match d with
   | 0 => K0 o | 1 => K1 o | 2 => K2 o | 3 => K3 o | 4 => K4 o
@@ -425,11 +425,38 @@ Definition emitZ (z : Z) (o : ostr) : ostr :=
   end.
 Definition ostr_of (l : list Z) : ostr := fold_right emitZ OE l.
 
+(* compact result: "p m' n' q" then the entries of L, M', R row by row; a rational is "n" or "n/d",
+   a symbolic entry "n*s" or "n/d*s".  Ragged results (never produced) fall back to "-2" followed by
+   the verbose encoding; None is "-1". *)
+Definition emitQ (q : Qc) (o : ostr) : ostr :=
+  match Qden (this q) with
+  | xH => emitZ (Qnum (this q)) o
+  | d => emitZ (Qnum (this q)) (Sl (emitN (Npos d) o))
+  end.
+Definition emitE (e : ent) (o : ostr) : ostr :=
+  match e with
+  | Num q => emitQ q o
+  | Sym q s => emitQ q (St (emitN (N.of_nat s) o))
+  end.
+Definition out_result (r : option (qmat * mat * qmat)) : ostr :=
+  match r with
+  | None => Mi (X1 OE)
+  | Some (L, M, R) =>
+      let p := length L in let m' := length M in let n' := ncols M in let q := ncols R in
+      if forallb (fun r => length r =? m') L && forallb (fun r => length r =? n') M &&
+         (length R =? n') && forallb (fun r => length r =? q) R
+      then emitN (N.of_nat p) (emitN (N.of_nat m') (emitN (N.of_nat n') (emitN (N.of_nat q)
+             (fold_right (fun row o => fold_right emitQ o row)
+               (fold_right (fun row o => fold_right emitE o row)
+                 (fold_right (fun row o => fold_right emitQ o row) OE R) M) L))))
+      else Mi (X2 (ostr_of (enc_result r)))
+  end.
+
 Definition ge_block (alph : list ent) (r c : nat) (start : N) (count : nat) : list ostr :=
-  map (fun k => ostr_of (enc_result (gaussian_elimination (decode_mat alph r c (start + N.of_nat k)%N))))
+  map (fun k => out_result (gaussian_elimination (decode_mat alph r c (start + N.of_nat k)%N)))
       (seq 0 count).
 Definition ge_list (Ms : list mat) : list ostr :=
-  map (fun M => ostr_of (enc_result (gaussian_elimination M))) Ms.
+  map (fun M => out_result (gaussian_elimination M)) Ms.
 (* echo of the decoded inputs of a block (entry encodings only), to tie the two decoders *)
 Definition echo_block (alph : list ent) (r c : nat) (start : N) (count : nat) : list ostr :=
   map (fun k => ostr_of (enc_rows encE (decode_mat alph r c (start + N.of_nat k)%N))) (seq 0 count).
